@@ -1,5 +1,7 @@
 import Model.Wire
 import Lemmas.Wire
+import Model.WireMP
+import Lemmas.WireMP
 /-!
 # C04 — BGP wire codec: encode and decode are mutually inverse and agree on framing
 
@@ -376,5 +378,288 @@ theorem as4_on_2octet_session_counterexample :
 theorem stale_length_counterexample :
     attrLen ⟨192, 8, 4, .communities [1, 2]⟩ ≠ (encAttr ⟨192, 8, 4, .communities [1, 2]⟩).length := by
   decide
+
+
+/-! # Multiprotocol part (Model/WireMP.lean)
+
+MP_REACH_NLRI / MP_UNREACH_NLRI as attributes and the NLRI codecs of IPv4 / IPv6 ×
+{unicast, multicast, labelled unicast, VPN, VPN multicast}: IPAddrPrefix of either width,
+MPLSLabelStack, RouteDistinguisher types 0/1/2/unknown, LabeledIPAddrPrefix, LabeledVPNIPAddrPrefix,
+the next-hop forms 4 / 16 / 32 and (SAFI 128) 12 / 24 / 48, the reserved octet, the NLRI loop
+advanced by Len(), ADD-PATH per family.  All other families remain oracle-only. -/
+
+/-- **decode ∘ encode, Len, consumption** for one NLRI of a modelled family (w = 4 or 16):
+    decoding the octets Serialize emits, followed by anything (the next NLRI), gives the NLRI back;
+    Len() is the number of octets emitted; advancing by Len() lands exactly on what follows. -/
+theorem nlri_decode_encode (w : Nat) (hw : w ≤ 16) (n : NlriX) (rest : Bytes) (wf : NlriXWF w n) :
+    decNlriX (kindOf n) w (encNlriX n ++ rest) = some n ∧
+    nlriXLen n = (encNlriX n).length ∧
+    (encNlriX n ++ rest).drop (nlriXLen n) = rest := by
+  refine ⟨decNlriX_enc hw wf rest, (encNlriX_length hw wf).symm, ?_⟩
+  rw [← encNlriX_length hw wf]; exact drop_append_len _ _
+
+/-- label stacks: Serialize then Decode is the identity on `LabelsWF`, and Len() = 3·depth octets -/
+theorem labels_decode_encode (ls : List Nat) (rest : Bytes) (wf : LabelsWF ls) :
+    decLabels true (encLabels ls ++ rest) = some ls ∧ (encLabels ls).length = labelsLen ls :=
+  ⟨decLabels_enc wf rest, encLabels_length wf⟩
+
+/-- route distinguishers of type 0, 1, 2 and of unknown type (6 opaque octets) -/
+theorem rd_decode_encode (rd : RD) (rest : Bytes) (wf : RDWF rd) :
+    decRD (encRD rd ++ rest) = rd ∧ (encRD rd).length = 8 := ⟨decRD_enc wf rest, encRD_length wf⟩
+
+/-- **framing of the NLRI list** (the statement the seeded changes C04-C / C04-E violated): the
+    loop of MP_REACH / MP_UNREACH, which advances by each decoded NLRI's Len() (+4 with ADD-PATH),
+    recovers exactly the list, and the octets it walks over are the sum of those lengths. -/
+theorem mp_nlri_framing (ap : Bool) (k : Kind) (w : Nat) (hw : w ≤ 16) (xs : List PathNlriX)
+    (wf : ∀ x ∈ xs, PathNlriXWF ap k w x) :
+    decNlriLoop ap k w (encPathNlrisX ap xs).length (encPathNlrisX ap xs) = some xs ∧
+    (encPathNlrisX ap xs).length = sumPathLens ap xs :=
+  ⟨decNlriLoop_enc hw xs _ wf (Nat.le_refl _), encPathNlrisX_length hw xs wf⟩
+
+/-- **MP_REACH_NLRI**: decode ∘ encode (followed by arbitrary octets), Len() = octets emitted =
+    octets consumed -/
+theorem mp_reach_decode_encode (o : OptsX) (r : MpReach) (rest : Bytes) (wf : MpReachWF o r) :
+    decAttrX o (encMpReach o r ++ rest) = .ok (.reach r) ∧
+    attrXLen (.reach r) = (encMpReach o r).length ∧
+    (encMpReach o r ++ rest).drop (attrXLen (.reach r)) = rest := by
+  have hl : (encMpReach o r).length = attrXLen (.reach r) :=
+    encMp_length (typ := 14) (by decide) wf.2.2.2.2.2
+  refine ⟨decAttrX_encMpReach wf rest, hl.symm, ?_⟩
+  rw [← hl]; exact drop_append_len _ _
+
+/-- **MP_UNREACH_NLRI**: the same three facts -/
+theorem mp_unreach_decode_encode (o : OptsX) (u : MpUnreach) (rest : Bytes) (wf : MpUnreachWF o u) :
+    decAttrX o (encMpUnreach o u ++ rest) = .ok (.unreach u) ∧
+    attrXLen (.unreach u) = (encMpUnreach o u).length ∧
+    (encMpUnreach o u ++ rest).drop (attrXLen (.unreach u)) = rest := by
+  have hl : (encMpUnreach o u).length = attrXLen (.unreach u) :=
+    encMp_length (typ := 15) (by decide) wf.2.2.2.2
+  refine ⟨decAttrX_encMpUnreach wf rest, hl.symm, ?_⟩
+  rw [← hl]; exact drop_append_len _ _
+
+/-- **attribute length field**: a well-formed MP attribute carries `Length` = value length and the
+    extended-length flag whenever that exceeds 255, and that is what reaches the wire -/
+theorem mp_length_field (o : OptsX) (r : MpReach) (wf : MpReachWF o r) :
+    r.length = (encMpReachVal o r).length ∧ (r.length > 255 → hasBit r.flags FLAG_EXT = true) := by
+  obtain ⟨_, _, _, _, _, _, hl, _, he, _⟩ := wf
+  refine ⟨hl, fun hgt => ?_⟩
+  rcases he with he | he
+  · exact he
+  · omega
+
+/-- the part of the next hop field: Serialize then Decode is the identity on `NexthopWF`
+    (IPv4; IPv6 global; global + link-local; each with the zero RD for SAFI 128) -/
+theorem mp_nexthop_roundtrip (afi safi : Nat) (nh ll : Bytes) (wf : NexthopWF afi nh ll)
+    (hs : safi ≠ 133 ∧ safi ≠ 134) :
+    decNexthop safi (encNexthop afi safi nh ll).length (encNexthop afi safi nh ll) = some (nh, ll) :=
+  (nexthop_roundtrip wf hs).2.2
+
+/-! ## the constructor NewPathAttributeMpUnreachNLRI -/
+
+theorem sumPathLens_false : ∀ xs : List PathNlriX, sumPathLens false xs = sumLens xs
+  | [] => rfl
+  | x :: xs => by simp [sumPathLens, sumLens, pathNlriXLen, sumPathLens_false xs]
+
+theorem flags_mp_attr (t l : Nat) (ht : t = 14 ∨ t = 15) (hl : l < 65536) :
+    getPathAttrFlags t l < 256 ∧ (hasBit (getPathAttrFlags t l) FLAG_EXT = true ∨ l % 65536 ≤ 255) ∧
+    validateFlags t (getPathAttrFlags t l) = true := by
+  have hm : l % 65536 = l := Nat.mod_eq_of_lt hl
+  rw [hm]
+  by_cases h : l > 255 <;> rcases ht with ht | ht <;> subst ht <;>
+    simp [getPathAttrFlags, pathAttrFlags, h, FLAG_EXT, validateFlags, hasBit, FLAG_OPT, FLAG_TRANS,
+      FLAG_PARTIAL] <;> omega
+
+/-- NewPathAttributeMpUnreachNLRI builds a well-formed attribute when ADD-PATH is off for the family
+    (with ADD-PATH the cached length omits the path ids: `mp_addpath_len_counterexample`) -/
+theorem mkMpUnreach_wf (o : OptsX) (afi safi : Nat) (k : Kind) (w : Nat) (xs : List PathNlriX)
+    (ha : afi < 65536) (hs : safi < 256) (hk : famKind afi safi = some (k, w))
+    (hrx : apRxFor o afi safi = false) (htx : apTxFor o afi safi = false)
+    (hx : ∀ x ∈ xs, PathNlriXWF false k w x) (hl : 3 + sumLens xs < 65536) :
+    MpUnreachWF o (mkMpUnreach afi safi xs) := by
+  have hw := (famKind_w hk).1
+  have hlen := encPathNlrisX_length hw xs hx
+  rw [sumPathLens_false] at hlen
+  have hf := flags_mp_attr 15 (3 + sumLens xs) (Or.inr rfl) hl
+  have hv : (encMpUnreachVal o (mkMpUnreach afi safi xs)).length = 3 + sumLens xs := by
+    simp [encMpUnreachVal, mkMpUnreach, htx, be16_length, hlen]; omega
+  refine ⟨ha, hs, ?_, ⟨k, w, hk, ?_⟩, hf.1, ?_, ?_, hf.2.1, hf.2.2⟩
+  · simp [mkMpUnreach, hrx, htx]
+  · simpa [mkMpUnreach, htx] using hx
+  · rw [hv]; simp [mkMpUnreach, Nat.mod_eq_of_lt hl]
+  · simp [mkMpUnreach]; omega
+
+/-! ## the constructor NewPathAttributeMpReachNLRI -/
+
+theorem mkMpReach_fields {afi safi : Nat} {nh ll : Bytes} (xs : List PathNlriX)
+    (h : NexthopWF afi nh ll) (hs : safi ≠ 133 ∧ safi ≠ 134) :
+    mkMpReach afi safi xs nh ll =
+      ⟨getPathAttrFlags 14 (5 + (encNexthop afi safi nh ll).length + sumLens xs),
+       (5 + (encNexthop afi safi nh ll).length + sumLens xs) % 65536, afi, safi, nh, ll, xs⟩ := by
+  obtain ⟨hs1, hs2⟩ := hs
+  rcases h with ⟨h4, ha, hl⟩ | ⟨h16, hl⟩
+  · obtain ⟨a, b, c, d, rfl⟩ := list_len4 h4
+    subst hl
+    by_cases hv : safi = 128
+    · subst hv
+      simp [mkMpReach, encNexthop, ha, List.replicate]
+    · simp [mkMpReach, encNexthop, ha, hs1, hs2, hv]
+  · obtain ⟨a0, a1, a2, a3, a4, a5, a6, a7, a8, a9, a10, a11, a12, a13, a14, a15, rfl⟩ := list_len16 h16
+    rcases hl with hl | ⟨hl16, hll⟩
+    · subst hl
+      have hnl : isLinkLocal [] = false := by simp [isLinkLocal]
+      by_cases hv : safi = 128
+      · subst hv
+        simp [mkMpReach, encNexthop, as16, hnl, List.replicate]
+      · simp [mkMpReach, encNexthop, as16, hnl, hs1, hs2, hv]
+    · obtain ⟨b0, b1, b2, b3, b4, b5, b6, b7, b8, b9, b10, b11, b12, b13, b14, b15, rfl⟩ := list_len16 hl16
+      by_cases hv : safi = 128
+      · subst hv
+        simp [mkMpReach, encNexthop, as16, hll, List.replicate]
+      · simp [mkMpReach, encNexthop, as16, hll, hs1, hs2, hv, List.replicate]
+
+/-- NewPathAttributeMpReachNLRI builds a well-formed attribute (cached Length = value length,
+    extended-length flag iff > 255) for every next-hop form, when ADD-PATH is off for the family -/
+theorem mkMpReach_wf (o : OptsX) (afi safi : Nat) (k : Kind) (w : Nat) (xs : List PathNlriX)
+    (nh ll : Bytes) (ha : afi < 65536) (hs : safi < 256) (hk : famKind afi safi = some (k, w))
+    (hrx : apRxFor o afi safi = false) (htx : apTxFor o afi safi = false)
+    (hnh : NexthopWF afi nh ll) (hx : ∀ x ∈ xs, PathNlriXWF false k w x)
+    (hl : 5 + (encNexthop afi safi nh ll).length + sumLens xs < 65536) :
+    MpReachWF o (mkMpReach afi safi xs nh ll) := by
+  have hfw := famKind_w hk
+  have hw := hfw.1
+  rw [mkMpReach_fields xs hnh hfw.2]
+  have hlen := encPathNlrisX_length hw xs hx
+  rw [sumPathLens_false] at hlen
+  have hn := (nexthop_roundtrip (safi := safi) hnh hfw.2).1
+  have hf := flags_mp_attr 14 (5 + (encNexthop afi safi nh ll).length + sumLens xs) (Or.inl rfl) hl
+  refine ⟨ha, hs, ?_, hnh, ⟨k, w, hk, ?_⟩, hf.1, ?_, ?_, hf.2.1, hf.2.2⟩
+  · simp [hrx, htx]
+  · simpa [htx] using hx
+  · simp [encMpReachVal, htx, be16_length, hlen, Nat.mod_eq_of_lt hl]; omega
+  · exact Nat.mod_lt _ (by decide)
+
+/-! ## decidability and non-vacuity of the new predicates -/
+
+instance (ls : List Nat) : Decidable (LabelsWF ls) :=
+  inferInstanceAs (Decidable (ls = [WITHDRAW_LABEL] ∨
+    (ls ≠ [] ∧ (∀ l ∈ ls, l < 1048576) ∧ ∀ l ∈ ls.dropLast, l ≠ 0 ∧ l ≠ 524288)))
+instance : (rd : RD) → Decidable (RDWF rd)
+  | .as2 a b => inferInstanceAs (Decidable (a < 65536 ∧ b < 4294967296))
+  | .ip4 a b => inferInstanceAs (Decidable (a < 4294967296 ∧ b < 65536))
+  | .as4 a b => inferInstanceAs (Decidable (a < 4294967296 ∧ b < 65536))
+  | .unknown t v => inferInstanceAs (Decidable (3 ≤ t ∧ t < 65536 ∧ v.length = 6))
+instance (w : Nat) : (n : NlriX) → Decidable (NlriXWF w n)
+  | .ip p => inferInstanceAs (Decidable (p.wfW w = true))
+  | .labelled ls p => inferInstanceAs (Decidable (LabelsWF ls ∧ p.wfW w = true ∧ 8 * labelsLen ls + p.bits ≤ 255))
+  | .vpn ls rd p => inferInstanceAs (Decidable (LabelsWF ls ∧ RDWF rd ∧ p.wfW w = true ∧
+      8 * (labelsLen ls + 8) + p.bits ≤ 255))
+instance (ap : Bool) (k : Kind) (w : Nat) (x : PathNlriX) : Decidable (PathNlriXWF ap k w x) :=
+  inferInstanceAs (Decidable (kindOf x.n = k ∧ NlriXWF w x.n ∧ x.id < 4294967296 ∧ (ap = false → x.id = 0)))
+instance (afi : Nat) (nh ll : Bytes) : Decidable (NexthopWF afi nh ll) :=
+  inferInstanceAs (Decidable ((nh.length = 4 ∧ afi ≠ 2 ∧ ll = []) ∨
+    (nh.length = 16 ∧ (ll = [] ∨ (ll.length = 16 ∧ isLinkLocal ll = true)))))
+instance (t f l : Nat) (v : Bytes) : Decidable (HdrWF t f l v) :=
+  inferInstanceAs (Decidable (f < 256 ∧ l = v.length ∧ l < 65536 ∧
+    (hasBit f FLAG_EXT = true ∨ l ≤ 255) ∧ validateFlags t f = true))
+
+/-- decidability of "the family is modelled and every NLRI is well-formed for it" -/
+def decFam (a s : Nat) (P : Kind → Nat → Prop) [∀ k w, Decidable (P k w)] :
+    Decidable (∃ k w, famKind a s = some (k, w) ∧ P k w) :=
+  match h : famKind a s with
+  | some (k, w) =>
+    if hp : P k w then isTrue ⟨k, w, rfl, hp⟩
+    else isFalse (by
+      rintro ⟨k', w', e, hp'⟩
+      cases e
+      exact hp hp')
+  | none => isFalse (by rintro ⟨_, _, e, _⟩; cases e)
+
+instance (o : OptsX) (u : MpUnreach) : Decidable (MpUnreachWF o u) :=
+  have := decFam u.afi u.safi (fun k w => ∀ x ∈ u.nlri, PathNlriXWF (apTxFor o u.afi u.safi) k w x)
+  inferInstanceAs (Decidable (u.afi < 65536 ∧ u.safi < 256 ∧ apRxFor o u.afi u.safi = apTxFor o u.afi u.safi ∧
+    (∃ k w, famKind u.afi u.safi = some (k, w) ∧
+      ∀ x ∈ u.nlri, PathNlriXWF (apTxFor o u.afi u.safi) k w x) ∧
+    HdrWF 15 u.flags u.length (encMpUnreachVal o u)))
+instance (o : OptsX) (r : MpReach) : Decidable (MpReachWF o r) :=
+  have := decFam r.afi r.safi (fun k w => ∀ x ∈ r.nlri, PathNlriXWF (apTxFor o r.afi r.safi) k w x)
+  inferInstanceAs (Decidable (r.afi < 65536 ∧ r.safi < 256 ∧ apRxFor o r.afi r.safi = apTxFor o r.afi r.safi ∧
+    NexthopWF r.afi r.nh r.ll ∧
+    (∃ k w, famKind r.afi r.safi = some (k, w) ∧
+      ∀ x ∈ r.nlri, PathNlriXWF (apTxFor o r.afi r.safi) k w x) ∧
+    HdrWF 14 r.flags r.length (encMpReachVal o r)))
+
+/-- ADD-PATH both ways for VPNv6 -/
+def exOptsX : OptsX := ⟨⟨false, false, false, true⟩, [⟨2, 128, true, true⟩]⟩
+def exVpn6 : NlriX := .vpn [100, 1048575] (.as4 4200000000 7) ⟨64, [0x20, 1, 0xd, 0xb8, 0, 0, 0, 1, 0, 0, 0, 0, 0, 0, 0, 0]⟩
+def exLab4 : NlriX := .labelled [16, 17, 0] ⟨23, [10, 1, 2, 0]⟩
+/-- VPNv6 MP_REACH with global + link-local next hop (48 octets with the RDs), two NLRIs with path ids;
+    its header is what a decoder reports for these octets -/
+def exReach : MpReach :=
+  ⟨128, 96, 2, 128, [0x20, 1, 0xd, 0xb8, 0, 0, 0, 0, 0, 0, 0, 0, 0, 0, 0, 1],
+   [0xfe, 0x80, 0, 0, 0, 0, 0, 0, 0, 0, 0, 0, 0, 0, 0, 1],
+   [⟨7, exVpn6⟩, ⟨4294967295, .vpn [8388608] (.unknown 9 [1, 2, 3, 4, 5, 6]) ⟨0, [0, 0, 0, 0, 0, 0, 0, 0, 0, 0, 0, 0, 0, 0, 0, 0]⟩⟩]⟩
+
+example : NlriXWF 16 exVpn6 := by decide
+example : NlriXWF 4 exLab4 := by decide
+example : LabelsWF [8388608] ∧ LabelsWF [16, 0] ∧ RDWF (.ip4 3232235777 9) := by decide
+example : MpReachWF exOptsX exReach := by decide
+example : MpUnreachWF exOptsX (mkMpUnreach 1 4 [⟨0, exLab4⟩]) := by decide
+example : ∃ k w, famKind 2 128 = some (k, w) ∧ w ≤ 16 ∧ ∀ x ∈ exReach.nlri, PathNlriXWF true k w x :=
+  ⟨.vpn, 16, rfl, by decide, by decide⟩
+example : NexthopWF 2 exReach.nh exReach.ll ∧ NexthopWF 1 [192, 0, 2, 1] [] := by decide
+
+/-! ## where the codec is not canonical or the hypotheses are needed (proved on witnesses) -/
+
+/-- `encode (decode bs) = bs` fails for a prefix with non-zero padding bits: 1.255…/7 is accepted,
+    stored as 254.0.0.0/7 and re-emitted as 07 fe -/
+theorem prefix_padding_counterexample :
+    decPrefixW 4 [7, 255] = some ⟨7, [254, 0, 0, 0]⟩ ∧ encPrefix ⟨7, [254, 0, 0, 0]⟩ ≠ [7, 255] := by decide
+
+/-- …and holds whenever the padding bits are clear (the decoder's masking is then the identity) -/
+theorem prefix_canonical_partial (w l : Nat) (rest : Bytes) (p : Prefix) (hl : l < 256)
+    (hd : decPrefixW w (l :: rest) = some p)
+    (hclear : maskLast l (rest.take (byteLen l) ++ List.replicate (w - byteLen l) 0)
+        = rest.take (byteLen l) ++ List.replicate (w - byteLen l) 0) :
+    encPrefix p = l :: rest.take (byteLen l) := by
+  simp only [decPrefixW, decodePrefixW] at hd
+  by_cases c1 : rest.length < byteLen l
+  · simp [c1] at hd
+  · by_cases c2 : l > w * 8
+    · simp [c1, c2] at hd
+    · simp only [c1, c2, if_false, Option.some.injEq] at hd
+      subst hd
+      have hlen : (rest.take (byteLen l)).length = byteLen l := by
+        simp [List.length_take]; omega
+      simp only [encPrefix, hclear, Nat.mod_eq_of_lt hl]
+      have := take_append_len (rest.take (byteLen l)) (List.replicate (w - byteLen l) 0)
+      rw [hlen] at this
+      rw [this]
+
+/-- the all-zero label: 00 00 00 is read as the withdraw-label convention `[0]`, which Serialize
+    emits as 00 00 01 — accepted input, different output -/
+theorem label_zero_counterexample :
+    decLabels true [0, 0, 0] = some [0] ∧ encLabels [0] = [0, 0, 1] ∧
+    decLabels true [0, 0, 1] = some [0] := by decide
+
+/-- label 0 above the bottom of the stack (known finding fam:label-0-above-bottom-of-stack):
+    what is built does not come back -/
+theorem label0_above_bottom_counterexample :
+    decNlriX .labelled 4 (encNlriX (.labelled [0, 100] ⟨24, [10, 1, 2, 0]⟩)) ≠
+      some (.labelled [0, 100] ⟨24, [10, 1, 2, 0]⟩) := by decide
+
+/-- ADD-PATH (known finding fam:mp-attr-len-ignores-addpath): the constructor's cached length does
+    not count the path identifiers, so Len() ≠ octets emitted and the attribute is not `MpReachWF` -/
+theorem mp_addpath_len_counterexample :
+    attrXLen (.reach (mkMpReach 2 1 [⟨1, .ip ⟨0, [0,0,0,0,0,0,0,0,0,0,0,0,0,0,0,0]⟩⟩]
+        [0x20, 1, 0xd, 0xb8, 0, 0, 0, 0, 0, 0, 0, 0, 0, 0, 0, 1] [])) ≠
+      (encMpReach ⟨⟨false, false, false, false⟩, [⟨2, 1, true, true⟩]⟩
+        (mkMpReach 2 1 [⟨1, .ip ⟨0, [0,0,0,0,0,0,0,0,0,0,0,0,0,0,0,0]⟩⟩]
+          [0x20, 1, 0xd, 0xb8, 0, 0, 0, 0, 0, 0, 0, 0, 0, 0, 0, 1] [])).length := by decide
+
+/-- a 32-octet next hop whose second address is not link-local is accepted, kept, and dropped on
+    re-serialisation (the next hop field shrinks to 16 octets) -/
+theorem nexthop_not_linklocal_counterexample :
+    decNexthop 1 32 (as16 [192, 0, 2, 1] ++ as16 [192, 0, 2, 2]) = some (as16 [192, 0, 2, 1], as16 [192, 0, 2, 2]) ∧
+    (encNexthop 2 1 (as16 [192, 0, 2, 1]) (as16 [192, 0, 2, 2])).length = 16 := by decide
 
 end C04
